@@ -99,13 +99,21 @@ def sstr_call(vm, fn, args, kwargs, node):
     return NotImplemented
 
 
+def sstr_issubclass(vm, x, c):
+    """kind tests on a field's type (codec_kind.*): an uninterpreted predicate of the type, one per class tuple"""
+    if isinstance(x, SRef):
+        names = '_'.join(sorted(str(getattr(k, 'name', None) or getattr(k, '__name__', None) or k) for k in (c if isinstance(c, tuple) else (c,))))
+        return SBool(z3.Function('issubclass.%s' % names, Ref, z3.BoolSort())(x.t))
+    return NotImplemented
+
+
 def sstr_post(vm, st, result):
     return [('str(struct) == pieces of the present fields in declaration order', vm.as_str(result) == st['ACC'](st['fields'].length))]
 
 
 Contract(COMPOSITE, 'struct.__str__', ['C18'], sstr_setup, sstr_post, shapes=RT, modifies=[],
          loops={('struct.__str__.to_str', 0): LoopAnn(sstr_inv, index='k', unfold=sstr_unfold)},
-         hooks={'call': sstr_call, 'getattr_dyn': sstr_getattr_dyn},
+         hooks={'call': sstr_call, 'getattr_dyn': sstr_getattr_dyn, 'issubclass': sstr_issubclass},
          notes=['field_to_string by contract (this module); absent == None, independent of truthiness'])
 
 
